@@ -1,12 +1,18 @@
 import Mastverif.Lemmas.Store
+import Mastverif.Lemmas.Codec
+import Mastverif.Lemmas.History
 /-!
-# C05 — persist then load is the identity (property theorems, in progress)
+# C05 — persist then load is the identity (property theorems)
 
 Model level: what `LoadMast` builds from a root is the persisted tree value recorded under the
 root's name; `C05_flush_keeps_entries` / `C05_flush_keeps_meta`: flushing changes neither the
 entries nor size, height, branch factor and thresholds, and the name in the root record is the
-name of the tree's top node.  The byte-level round trip (`decBin (encBin n) = n`) is on the
-work list; the tie (family `persist`, `map`, `format`) compares every stored byte string with
+name of the tree's top node.  `C05_binary_roundtrip`: decoding the bytes of format "v1.1.5binary" gives back exactly the
+node's keys, values and child names, for every node whose marshaled keys / values are non-empty
+(codec.go reads a zero-length body as "absent" — a real side condition of the format, true of
+every JSON form) and whose lengths fit nine varint bytes.  `C05_reload_behaves_the_same`: the
+reloaded tree (all links names) gives the same outputs as the original on every later
+history.  The v1marshaler decoder is `encoding/json` and is not modelled.  The tie (family `persist`, `map`, `format`) compares every stored byte string with
 `encBin`/`encJson`, reloads through a JSON round-trip of the root and compares entries, size,
 height after every cycle.
 -/
@@ -42,7 +48,51 @@ theorem C05_root_record (e : Enc) (m : Tree) :
 theorem C05_reloaded_name (e : Enc) (t : T) : nodeName e (persistAll t) = nodeName e t :=
   nodeName_persistAll e t
 
+/-- the reloaded tree can be modified and persisted again with all the same guarantees:
+    every later history has the same outputs as on the original tree -/
+theorem C05_reload_behaves_the_same (layer : Nat → Nat) (e : Enc) (m : Tree) (hi : Inv layer m) (ops : List Op) :
+    runT layer e (makeRoot e m).2.2 ops = runT layer e m ops := by
+  have h := inv_makeRoot layer e m hi
+  rw [C01_like layer e ops _ h.1, C01_like layer e ops m hi, h.2]
+where
+  C01_like (layer : Nat → Nat) (e : Enc) : ∀ (ops : List Op) (m : Tree), Inv layer m →
+      runT layer e m ops = runL m.toList ops := by
+    intro ops
+    induction ops with
+    | nil => intro m _; rfl
+    | cons op ops ih =>
+      intro m hi
+      obtain ⟨h1, h2, h3⟩ := step_refines layer e m op hi
+      simp only [runT, runL]
+      rw [h1, ih _ h2, h3]
+
 end Mast.Tree
+
+namespace Mast.Codec
+theorem C05_binary_roundtrip (n : NodeB) (h : NodeOK n) :
+    decBinRaw (encBin n) = some { keys := n.keys.map some, vals := n.vals.map some,
+                                  links := if n.links.all Option.isNone then [] else n.links } :=
+  decBinRaw_encBin n h
+
+theorem fits_small (n : Nat) (h : n < 128) : fits n :=
+  ⟨9, rfl, Nat.lt_of_lt_of_le h (Nat.le_self_pow (by omega) 128)⟩
+
+/-- non-vacuity: a two-entry node with one child satisfies the side conditions -/
+example : NodeOK { keys := [[49], [50]], vals := [[53], [54]], links := [none, some [65, 66], none] } := by
+  constructor
+  · intro b hb; simp at hb; rcases hb with rfl | rfl <;> exact ⟨by simp, fits_small _ (by simp)⟩
+  · intro b hb; simp at hb; rcases hb with rfl | rfl <;> exact ⟨by simp, fits_small _ (by simp)⟩
+  · intro o ho; simp at ho
+    rcases ho with rfl | rfl | rfl
+    · exact ⟨by simp, fits_small _ (by simp)⟩
+    · exact ⟨by simp, fits_small _ (by simp)⟩
+    · exact ⟨by simp, fits_small _ (by simp)⟩
+  · exact fits_small _ (by simp)
+  · exact fits_small _ (by simp)
+  · exact fits_small _ (by simp)
+end Mast.Codec
+#print axioms Mast.Tree.C05_reload_behaves_the_same
+#print axioms Mast.Codec.C05_binary_roundtrip
 #print axioms Mast.Tree.C05_flush_keeps_entries
 #print axioms Mast.Tree.C05_flush_keeps_meta
 #print axioms Mast.Tree.C05_root_record
